@@ -1336,6 +1336,11 @@ func (d *dealer) syncDelCalleeReg(callee *wamp.Session, regID wamp.ID) (bool, er
 		return false, fmt.Errorf("no such registration: %v", regID)
 	}
 
+	// A session can only be removed from a registration it is a member of.
+	if !slices.Contains(reg.callees, callee) {
+		return false, fmt.Errorf("session %v is not registered for %v", callee, regID)
+	}
+
 	// Remove the callee from the registration.
 	for i := range reg.callees {
 		if reg.callees[i] == callee {
